@@ -25,17 +25,22 @@ while i < len(log):
         i += 1
     src = '/tmp/mut/out/' + sid
     dst = os.path.join(VERIF, 'seeded', sid)
-    if not os.path.isdir(src):
+    old_runs = []
+    if os.path.exists(os.path.join(dst, 'meta.json')):
+        old_runs = json.load(open(os.path.join(dst, 'meta.json'))).get('verif_runs', [])
+    if os.path.isdir(src) and not os.path.isdir(dst):
+        os.makedirs(dst, exist_ok=True)
+        for f in ('patch.diff', 'demo.py', 'meta.json'):
+            shutil.copy(os.path.join(src, f), os.path.join(dst, f))
+    if not os.path.isdir(dst):
         continue
-    os.makedirs(dst, exist_ok=True)
-    for f in ('patch.diff', 'demo.py', 'meta.json'):
-        shutil.copy(os.path.join(src, f), os.path.join(dst, f))
     meta = json.load(open(os.path.join(dst, 'meta.json')))
+    meta['verif_runs'] = old_runs
     meta['property'] = prop
     runs = meta.setdefault('verif_runs', [])
     runs.append({
         'ran': 'tools/seedrun.sh %s %s  (patch applied to a scratch worktree of /repo; demo.py with and without; '
-               './check %s --tier quick with VERIF_REPO=<worktree>)' % (prop, src, prop),
+               './check %s --tier quick with VERIF_REPO=<worktree>)' % (prop, src if os.path.isdir(src) else 'seeded/' + sid, prop),
         'demo_exit_unchanged': d0, 'demo_exit_with_change': d1,
         'check_exit': rc, 'violation_lines': nv,
         'caught': bool(rc == 1 and nv > 0),
